@@ -685,7 +685,13 @@ func drawFloat32(t *rapid.T, label string) float32 {
 		return rapid.SampledFrom([]float32{0, float32(math.Copysign(0, -1)), 1, -1, math.MaxFloat32, -math.MaxFloat32, math.SmallestNonzeroFloat32,
 			float32(math.Inf(1)), float32(math.Inf(-1)), float32(math.NaN()), 1.5, 16777217}).Draw(t, label)
 	}
-	return math.Float32frombits(rapid.Uint32().Draw(t, label))
+	f := math.Float32frombits(rapid.Uint32().Draw(t, label))
+	if f != f {
+		// NaN payloads: quiet NaNs only. A signalling NaN does not survive a float32 -> float64 -> float32 conversion on
+		// the hardware (it comes back quiet), and every NaN bit pattern is a valid encoding of NaN
+		f = math.Float32frombits(math.Float32bits(f) | 0x00400000)
+	}
+	return f
 }
 
 func drawFloat64(t *rapid.T, label string) float64 {
@@ -693,7 +699,11 @@ func drawFloat64(t *rapid.T, label string) float64 {
 		return rapid.SampledFrom([]float64{0, math.Copysign(0, -1), 1, -1, math.MaxFloat64, -math.MaxFloat64, math.SmallestNonzeroFloat64,
 			math.Inf(1), math.Inf(-1), math.NaN(), 1.5, 1 << 53, 1<<53 + 1, math.MaxFloat32 * 2}).Draw(t, label)
 	}
-	return math.Float64frombits(rapid.Uint64().Draw(t, label))
+	f := math.Float64frombits(rapid.Uint64().Draw(t, label))
+	if f != f {
+		f = math.Float64frombits(math.Float64bits(f) | 0x0008000000000000) // quiet NaNs only, as above
+	}
+	return f
 }
 
 // ---------------------------------------------------------------------------------------------------------------
